@@ -1310,7 +1310,11 @@ class Interp:
         if isinstance(v, dict):
             return list(v.keys())
         if isinstance(v, (set, frozenset)):
-            return list(v)
+            # set iteration order is unspecified in Python: pyvc enumerates in a canonical order,
+            # or in the reverse of it when `engine.set_order == "reverse"` (used by the
+            # order-independence obligations of C10)
+            items = sorted(v, key=_canon_key)
+            return items[::-1] if getattr(self.e, "set_order", "forward") == "reverse" else items
         if isinstance(v, (range, str)) or type(v).__name__ in ("dict_keys", "dict_values", "dict_items", "zip", "enumerate", "reversed", "map", "filter", "list_iterator", "generator", "list_reverseiterator", "tuple_iterator"):
             return list(v)
         if isinstance(v, Sym) and hasattr(v, "iterate"):
@@ -1438,6 +1442,12 @@ class Interp:
 
 
 _PENDING = object()
+
+
+def _canon_key(x):
+    if isinstance(x, SObj):
+        return (1, x.oid, "")
+    return (0, 0, repr(x))
 
 
 def _plain(v):
